@@ -1281,13 +1281,20 @@ func ruleTabKeysig(c *Ctx) {
 			"order of flats "+strings.Join(flats, " "), fmt.Sprintf("order of flats is %v, stacking fifths gives %v", flats, orderOfFlats()))
 	}
 
-	// slicing bounds of newScaleAccidentals: flats take the first n, sharps the last n
-	c.checkScaleAccidentalSlices()
-	// and, for every signature size -7..7, the letters it hands to the set constructor (decided by folding)
-	c.checkScaleAccidentalSets()
+	if problem, _, ok := c.scalesVerdict(); ok && problem == "" {
+		// op.NewScale is decided on every key spelling by folding (SCALEWIRE `op.NewScale|domain`): how the signature
+		// is turned into altered letters inside is decided with it
+		c.site(1)
+		c.ok("op.NewScale|folded", "", "op.NewScale", "the constructor is decided on all 42 key spellings by folding: the slicing of the order of flats and the letter table are not read separately")
+	} else {
+		// slicing bounds of newScaleAccidentals: flats take the first n, sharps the last n
+		c.checkScaleAccidentalSlices()
+		// and, for every signature size -7..7, the letters it hands to the set constructor (decided by folding)
+		c.checkScaleAccidentalSets()
 
-	// tonic -> index table in newRawScaleNotes, by folding the switch for every letter
-	c.checkRawScaleIndex()
+		// tonic -> index table in newRawScaleNotes, by folding the switch for every letter
+		c.checkRawScaleIndex()
+	}
 
 	// model: for each row, the altered letters obtained by slicing the extracted sequence equal the derived scale's
 	if len(flats) == 7 {
